@@ -39,11 +39,11 @@ const (
 )
 
 const (
-	c13BehAnswer = iota // the remote answers the identify request at once with an honest message
-	c13BehStall         // the remote accepts the stream and never answers
-	c13BehRefuse        // the remote refuses the stream
-	c13BehClosedFirst   // the connection is already closed when Connected is delivered
-	c13BehDiscFirst     // ... and its Disconnected was even delivered before its Connected (out-of-order notifications)
+	c13BehAnswer      = iota // the remote answers the identify request at once with an honest message
+	c13BehStall              // the remote accepts the stream and never answers
+	c13BehRefuse             // the remote refuses the stream
+	c13BehClosedFirst        // the connection is already closed when Connected is delivered
+	c13BehDiscFirst          // ... and its Disconnected was even delivered before its Connected (out-of-order notifications)
 )
 
 var c13BehNames = []string{"answers", "stalls", "refuses-stream", "closed-before-Connected", "Disconnected-before-Connected"}
